@@ -68,6 +68,7 @@ var contentNames = []string{"uniform", "zero", "ones", "repeat16", "sparse", "ra
 type ReadFault struct {
 	Short int `json:"short,omitempty"` // deliver at most this many bytes (0 = as many as asked)
 	Stall int `json:"stall,omitempty"` // this many (0,nil) returns first
+	Delay int `json:"delay,omitempty"` // the read takes this many simulated milliseconds before it returns anything
 }
 
 // DevPlan is the fault plan of one library call.
@@ -100,6 +101,7 @@ type DevLog struct {
 	ErrWith   bool   `json:"errwith,omitempty"`
 	Recovered bool   `json:"recovered,omitempty"` // bytes were delivered after the error
 	Stalls    int    `json:"stalls,omitempty"`
+	DelayedMs int    `json:"delayed_ms,omitempty"`
 	Shorts    int    `json:"shorts,omitempty"`
 	Bytes     []byte `json:"-"`
 }
@@ -212,6 +214,12 @@ func (d *Device) Read(p []byte) (int, error) {
 	}
 	d.stalled = 0
 	d.idx++
+	if f.Delay > 0 {
+		// a slow or stalled source: simulated time passes (and nothing else
+		// happens unless somebody set a timer)
+		d.log.DelayedMs += f.Delay
+		zzsimrt.SleepSim(int64(f.Delay) * 1000000)
+	}
 	n := len(p)
 	if d.plan.Frag > 0 && n > d.plan.Frag {
 		n = d.plan.Frag
